@@ -1020,6 +1020,158 @@ def check(ctx):
                                      key=known or f"{name}:integer-dtype:value",
                                      detail=detail | {"sample number": j, "sample": [float(z) for z in col], "result dtype": str(v.dtype)})
                             break
+    # ---------------- public attributes re-assigned after construction: one criterion object used for a sweep over its parameter
+    # (`loss = IsoelasticLoss(0.5); loss.a = 1.0`).  In the unchanged code every configuration attribute is read at call time:
+    # a of EntropicRiskMeasure / EntropicLoss / IsoelasticLoss, p of ExpectedShortfall, lam of QuadraticCVaR, utility and w of OCE
+    # (forward of each; the closed-form cash of the first / second / fourth / fifth goes through forward or reads self.a, the default
+    # search cash of IsoelasticLoss / OCE calls forward).  After each re-assignment (two in a row on one object; the second may return
+    # to the value of construction) forward must be the value the definition prescribes for the CURRENT attribute, forward and cash
+    # must equal those of a criterion freshly constructed with the current value (the same function of the same arguments: bitwise), the
+    # closed-form cash must be minus the risk of the current value; a second criterion of the same class constructed with the first
+    # value and alive all along must keep its own value (no state shared through the class).  Fixed corpus on every tier (values
+    # through g); shapes (N,), (N, M), (N, M, K); targets none / number / full tensor; also through op crit_tensor
+    def fresh_crit(which, par, ufn=None):
+        if which == "oce":
+            m_ = OCE(ufn)
+            with torch.no_grad():
+                m_.w.copy_(torch.tensor(float(F(par[3]))))
+            return m_.to(torch.float64)
+        return {"es": nn.ExpectedShortfall, "erm": nn.EntropicRiskMeasure, "eloss": nn.EntropicLoss, "iso": nn.IsoelasticLoss,
+                "qcvar": nn.QuadraticCVaR}[which](par)
+    for rep in range(2 if ctx.tier == "quick" else 12):
+        for which in ("es", "erm", "eloss", "iso", "qcvar", "oce"):
+            for rank in (1, 2, 3):
+                shape = [g.choice([2, 3, 4, 5, 8, 10])] + [g.choice([1, 2, 3]) for _ in range(rank - 1)]
+                N, cnt = shape[0], math.prod(shape)
+                kind = g.choice(["ties", "generic"])
+                if kind == "ties":
+                    pool = [g.dy(-4, 4, 2) for _ in range(max(2, cnt // 3))]
+                    vals = [g.choice(pool) for _ in range(cnt)]
+                else:
+                    vals = [g.dy(-4, 4, 3) for _ in range(cnt)]
+                if which == "iso":
+                    vals = [abs(z) + F(17, 8) for z in vals]
+                x = torch.tensor([float(z) for z in vals], dtype=torch.float64).reshape(shape)
+                tk = g.choice(["none", "float", "full"])
+                if tk == "none":
+                    tv, target = [F(0)] * cnt, None
+                elif tk == "float":
+                    c = g.choice([F(1, 2), F(-3, 4), F(1, 4)])
+                    tv, target = [c] * cnt, float(c)
+                else:
+                    tv = [g.dy(-1, 1, 2) for _ in range(cnt)]
+                    target = torch.tensor([float(z) for z in tv], dtype=torch.float64).reshape(shape)
+                rest, cols = dim_slices([a_ - b_ for a_, b_ in zip(vals, tv)], shape, 0)
+                prec = qprec(cols) if which == "qcvar" else None
+                name = REUSE_NAME[which]
+                par0, mod, _, oce0 = build(which, N)
+                ufn0 = mod.utility if which == "oce" else None
+                other = fresh_crit(which, par0, ufn0)        # the second instance, constructed with the first value
+                cur_par, cur_oce, cur_ufn = par0, oce0, ufn0
+                history = [{"constructed with": par0}]
+                for step in range(2):
+                    # the next value: different from the current one (the second may be the value of construction again)
+                    if step == 1 and g.chance(0.4):
+                        new_par, new_oce, new_ufn = par0, oce0, ufn0
+                    else:
+                        for _ in range(50):
+                            new_par, m2_, _, new_oce = build(which, N)
+                            if new_par != cur_par and (which != "oce" or (new_par[:3] != cur_par[:3] and new_par[3] != cur_par[3])):
+                                break
+                        new_ufn = m2_.utility if which == "oce" else None
+                    if new_par == cur_par:
+                        break
+                    if which == "oce":
+                        attr = g.choice(["utility", "w", "utility+w"])
+                        if "utility" in attr:
+                            mod.utility = new_ufn
+                            cur_par, cur_oce, cur_ufn = new_par[:3] + [cur_par[3]], (cur_oce[0], new_oce[1]), new_ufn
+                        if "w" in attr:
+                            mod.w = torch.nn.Parameter(torch.tensor(float(new_oce[0]), dtype=torch.float64))
+                            cur_par, cur_oce = cur_par[:3] + [new_par[3]], (new_oce[0], cur_oce[1])
+                    else:
+                        attr = {"es": "p", "qcvar": "lam"}.get(which, "a")
+                        setattr(mod, attr, new_par)
+                        cur_par = new_par
+                    history.append({"assigned": attr, "value": cur_par})
+                    case = {"which": which, "class": "attribute-reassigned", "shape": shape, "kind": kind, "target": tk, "history": list(history),
+                            "par": cur_par, "data": enc_rat(vals), "targets": enc_rat(tv) if tk != "none" else None}
+                    ctx.case(case, True, tag=f"reassigned:{which}:{attr}")
+                    ctx.stats[f"reassigned:{which}"] += 1
+                    ctx.traces += 1
+                    fresh = fresh_crit(which, cur_par, cur_ufn)
+                    args = (x,) if target is None else (x, target)
+                    st, v, mut = call_impl(mod, *args)
+                    if mut:
+                        ctx.mutated(which, mut, case)
+                    ct_add(torch, reqs, metas, case, which, cur_par, x, target, "module", None, st, v.detach() if st == "ok" else v)
+                    if st != "ok":
+                        ctx.fail(f"{name} raised after its public attribute was re-assigned to an admissible value", case,
+                                 key=f"{name}:reassigned:error", detail=v)
+                        break
+                    v = v.detach()
+                    if list(v.shape) != rest:
+                        ctx.fail(f"{name}: after re-assigning a public attribute the value does not have the trailing shape of the sample", case,
+                                 key=f"{name}:reassigned:shape", detail={"shape": list(v.shape), "expected": rest})
+                        break
+                    bad = False
+                    for j, (col, gv) in enumerate(zip(cols, flat(v))):
+                        okv, detail, known = defn_ok(which, cur_par, col, gv, False, prec=prec, oce=cur_oce)
+                        if not okv:
+                            ctx.fail(f"{name}: after its public attribute was re-assigned the criterion does not return the value the definition "
+                                     "prescribes for the attribute's current value", case, key=known or f"{name}:reassigned:value",
+                                     detail=detail | {"sample number": j, "sample": [float(z) for z in col], "repr": repr(mod)[:80]})
+                            bad = True
+                            break
+                    if bad:
+                        break
+                    stf, vf, _ = call_impl(fresh, *args)
+                    if stf != "ok" or not torch.equal(v, vf.detach()):
+                        ctx.fail(f"{name}: a criterion whose public attribute was re-assigned differs from a freshly constructed criterion with that value", case,
+                                 key=f"{name}:reassigned:fresh", detail={"re-assigned": flat(v)[:8], "fresh": flat(vf.detach())[:8] if stf == "ok" else vf})
+                        break
+                    # cash: closed form (minus the risk of the current value; EntropicLoss: minus the entropic risk) / default search
+                    stc, vc, _ = call_impl(mod.cash, *args)
+                    stcf, vcf, _ = call_impl(fresh.cash, *args)
+                    closed = which in ("es", "erm", "eloss", "qcvar")
+                    if closed:
+                        ct_add(torch, reqs, metas, case, which, cur_par, x, target, "cash", None, stc, vc.detach() if stc == "ok" else vc)
+                    ctx.stats[f"reassigned:cash:{which}:{'evaluated' if stcf == 'ok' else 'refused'}"] += 1
+                    if stc != stcf or (stc == "ok" and not torch.equal(vc.detach(), vcf.detach())) or (stc != "ok" and vc != vcf):
+                        ctx.fail(f"{name}: cash of a criterion whose public attribute was re-assigned differs from cash of a freshly constructed "
+                                 "criterion with that value", case, key=f"{name}:cash:reassigned:fresh",
+                                 detail={"re-assigned": flat(vc.detach())[:8] if stc == "ok" else vc, "fresh": flat(vcf.detach())[:8] if stcf == "ok" else vcf})
+                        break
+                    if closed:
+                        if stc != "ok" or list(vc.shape) != rest:
+                            ctx.fail(f"{name}: cash raised / has the wrong shape after a public attribute was re-assigned", case,
+                                     key=f"{name}:cash:reassigned:error", detail=vc if stc != "ok" else list(vc.shape))
+                            break
+                        cwhich = "erm" if which == "eloss" else which
+                        for j, (col, gv) in enumerate(zip(cols, flat(vc.detach()))):
+                            okv, detail, known = defn_ok(cwhich, cur_par, col, -gv, False, prec=prec)
+                            if not okv:
+                                ctx.fail(f"{name}: after its public attribute was re-assigned cash is not minus the risk the definition prescribes "
+                                         "for the attribute's current value", case, key=known or f"{name}:cash:reassigned:value",
+                                         detail=detail | {"sample number": j, "sample": [float(z) for z in col]})
+                                bad = True
+                                break
+                        if bad:
+                            break
+                    # the second instance keeps the value it was constructed with
+                    sto, vo, _ = call_impl(other, *args)
+                    oko = sto == "ok" and list(vo.shape) == rest
+                    if oko:
+                        for j, (col, gv) in enumerate(zip(cols, flat(vo.detach()))):
+                            okv, detail, known = defn_ok(which, par0, col, gv, False, prec=prec, oce=oce0)
+                            if not okv and not known:
+                                oko = False
+                                break
+                    if not oko:
+                        ctx.fail(f"{name}: a second criterion of the same class, constructed with another value and alive while the first one's attribute "
+                                 "was re-assigned, no longer returns the value the definition prescribes for its own value", case | {"second instance": par0},
+                                 key=f"{name}:two-instances:value", detail=vo if sto != "ok" else flat(vo.detach())[:8])
+                        break
     try:
         outs = ctx.driver(reqs)
     except DriverBroken as e:
@@ -1072,4 +1224,6 @@ def check(ctx):
              "value_at_risk / quadratic_cvar / topp and every module form on true (N,M,K), (N,M,K,L) shapes: shape with exactly the reduced dimension removed and "
              "each entry = the definition on the pure-Python slice at its multi-index (also through op crit_tensor); a fixed corpus of int64 / int32 / bool P&L tensors "
              "and integer / float / float32 targets (number, 0-dim, full, per-path) for every module, cash and functional form (refusals of the unchanged code only counted); "
-             "every case non-trivial; distinct = sha1 of canonical case")
+             "a fixed corpus of criteria whose public attributes (a, p, lam, utility, w) are re-assigned after construction, twice in a row: forward = the definition "
+             "for the current value, forward and cash = those of a freshly constructed criterion, closed-form cash = minus the risk, a second live instance keeps its value "
+             "(also through op crit_tensor); every case non-trivial; distinct = sha1 of canonical case")
